@@ -605,6 +605,9 @@ def persistence_scenarios(run: Run, model: PyModel, rid: str, order=None) -> Non
     last2 = (order[-1] * 2) if order else "zz"
     scenarios = [("a date with a stored counter", {"991231": "0B", "200101": "0A", "240102": "0C"}, "0C"), ("a new date", {"991231": "0B", "200101": "0A"}, None), ("no next_ids.json yet", None, None),
                  ("a date whose two-character suffixes are used up", {"991231": "0B", "240102": last2}, last2), ("a date in its three-character suffixes", {"240102": "00" + last2[0], "200101": last2}, "00" + last2[0])]
+    # a long history: counters of 400 dates, the one asked for being the OLDEST (a day log indexed years later): nothing is pruned
+    many = {f"{25 + k // 360:02d}{1 + (k % 360) // 30:02d}{1 + k % 30:02d}": "0B" for k in range(1, 400)}
+    scenarios.append(("a history of 400 dates, the oldest being asked for", {"240102": "0C", **{d: v for d, v in many.items() if d > "240102"}}, "0C"))
     for label, loaded, want_suffix in scenarios:
         I2 = Interp(model, probes=make_probes(loaded))
         st0 = State()
@@ -646,4 +649,4 @@ def persistence_scenarios(run: Run, model: PyModel, rid: str, order=None) -> Non
                       f"for {label} get_next returns {v!r} after writing {maps[-1] if maps else 'nothing'} to next_ids.json; expected {expect}: "
                       + ("nothing is persisted, so the same ZID is handed out again after a restart" if not maps else
                          "the counters of other dates are dropped / the date is not advanced, so ZIDs already in use are issued again"), file=FILE, node=fi_get.node)
-    run.floor("get_next scenarios", n, 5)
+    run.floor("get_next scenarios", n, 6)
